@@ -4,7 +4,7 @@ ops (one JSON object per line):
   {"op":"init", "schedule":[..], "dt_init":q, "constant_dt":b, "dt_min_max":null|[q,q], "iter_max":i,
    "iter_low":i, "iter_upp":i, "under":q, "over":q, "recomp_factor":q, "recomp_max":i, "rtol":q, "atol":q}
         -> {"err":"ValueError"} | {"dt_min":q,"dt_max":q, <state>, "m":margin}
-  {"op":"increase"}                      increase_time(); increase_time_index()   -> <state>
+  {"op":"inc_time"} / {"op":"inc_index"}   increase_time() / increase_time_index()   -> <state>
   {"op":"compute","iterations":i|null,"recompute":b}   -> {"ret":q|null, <state>, "m":..} | {"err":kind, <state>, "m":..}
   {"op":"final"}                         -> {"final":b, "m":..}
   {"op":"loop","outcomes":[i,...]}       the time loop on an outcome tape (i >= 0: converged with i iterations,
@@ -107,12 +107,14 @@ def step (st : St) (j : Json) : R (St × Json) := do
     if validate p then
       pure (some (p, init p), obj ([("dt_min", ofRat dtMin), ("dt_max", ofRat dtMax)] ++ stateFields (init p) ++ [("m", m)]))
     else pure (none, obj [("err", Json.str "ValueError"), ("m", m)])
-  | "increase" =>
+  | "inc_time" =>
     match st with
     | none => throw "no time manager"
-    | some (p, s) =>
-      let s' := increaseTimeIndex (increaseTime s)
-      pure (some (p, s'), obj (stateFields s'))
+    | some (p, s) => pure (some (p, increaseTime s), obj (stateFields (increaseTime s)))
+  | "inc_index" =>
+    match st with
+    | none => throw "no time manager"
+    | some (p, s) => pure (some (p, increaseTimeIndex s), obj (stateFields (increaseTimeIndex s)))
   | "final" =>
     match st with
     | none => throw "no time manager"
